@@ -302,7 +302,7 @@ SITE_CLASSES = [
     ('reactor/keepalive.py', {(4, 0)}, {}),
     ('reactor/network/connection.py', {(1, 1), (1, 2)}, {}),
     ('reactor/protocol.py', {(1, 3), (1, 0), (5, 1), (5, 2)}, {}),
-    ('reactor/peer/peer.py', {(5, 1), (6, None)}, {}),
+    ('reactor/peer/peer.py', {(5, 1), (6, None), (4, 0)}, {}),
 ]
 SITE_FUNCTIONS = {
     # per-function narrowing where the RFC names one subcode
@@ -310,6 +310,8 @@ SITE_FUNCTIONS = {
     ('reactor/protocol.py', 'Protocol.read_keepalive'): {(5, 2)},
     ('reactor/peer/peer.py', 'Peer._read_open'): {(5, 1)},
     ('reactor/peer/peer.py', 'Peer._main'): {(6, None)},
+    # RFC 4271 8.2.2, OpenConfirm: hold timer expiry while waiting for the confirming KEEPALIVE (site added by the fix c9fd27e)
+    ('reactor/peer/peer.py', 'Peer._read_ka'): {(4, 0)},
 }
 
 
